@@ -381,3 +381,50 @@ func checkDeliveriesByIdentity(env *Env, ops []*OpRec, skip map[string]bool) []V
 }
 
 var _ = tally.DefaultSeparator
+
+// spice varies the environment of a generated program (swarm style): the
+// generators of the core properties write their programs with plain names and
+// no sanitizer, so the code that maps a requested name to the name it is kept
+// under never does anything in them. In a share of those programs a sanitizer
+// is configured and every name, tag key and tag value gets a suffix that the
+// sanitizer rewrites - consistently, so that equal strings stay equal and
+// different ones different.
+func spice(g *Gen, p *Program) {
+	switch p.Prop {
+	case "C01", "C02", "C03", "C07", "C08", "C10", "C20":
+	default:
+		return
+	}
+	c := &p.Cfg
+	if c.Sanitize != nil || (c.Stack != "plain" && c.Stack != "cached") || !g.Bool(12) {
+		return
+	}
+	c.Sanitize = sanMenu[0]
+	if c.Flags == nil {
+		c.Flags = map[string]int{}
+	}
+	c.Flags["spiced"] = 1
+	each := func(ops []Op) {
+		for i := range ops {
+			op := &ops[i]
+			switch op.K {
+			case "counter", "gauge", "timer", "hist", "sub":
+				if op.Name != "" {
+					op.Name += "-s"
+				}
+			}
+			if op.Tags != nil {
+				t := make(map[string]string, len(op.Tags))
+				for k, v := range op.Tags {
+					t[k+".s"] = v + "-s"
+				}
+				op.Tags = t
+			}
+		}
+	}
+	each(p.Prelude)
+	for _, t := range p.Tasks {
+		each(t)
+	}
+	each(p.Epilogue)
+}
